@@ -24,6 +24,10 @@ var (
 	minJsonBigInt *big.Int = big.NewInt(minJsonInt)
 )
 
+// maxTextDateTime is the unix time of the last date-time that can be written in the text
+// encodings, whose RFC 3339 representation has a 4 digits year (9999-12-31T23:59:59Z).
+var maxTextDateTime = time.Date(9999, time.December, 31, 23, 59, 59, 0, time.UTC).Unix()
+
 type jsonWriter struct {
 	buf    *bytes.Buffer
 	indent int
@@ -513,6 +517,9 @@ func (j *jsonReader) DateTime(tag int) (time.Time, error) {
 			epoch := int64(parsed)
 			if epoch < 0 {
 				return time.Time{}, Errorf("date-time cannot be negative")
+			}
+			if epoch > maxTextDateTime {
+				return time.Time{}, Errorf("date-time is out of range")
 			}
 			return time.Unix(epoch, 0).UTC(), j.Next()
 		}
